@@ -329,7 +329,7 @@ def run(ctx, out):
                 "-w 0 = one worker per CPU), runs confined to ONE usable CPU, runs in which one call fails (ENOENT/EACCES/EIO/ENOTDIR at the "
                 "n-th open / stat / listing / mkdir / symlink / readlink): whole-sandbox snapshot vs an "
                 "independent Python statement of cp's mapping rule and a frame check; the destination matrix (DestMatrix.v); operands "
-                "that are links (copied as links, never descended into, whatever they point at from their new place); --gitignore selections (git's own verdicts; sources holding a directory of their own name) mirrored entry by entry; destinations whose parent is missing, trees whose files are renamed away or whose fresh destination directory is removed by another process during the run (exit 0 still means: everything there); operands ending in `..` (nothing outside the destination); non-trivial = >=3 entries; distinct by case")
+                "that are links (copied as links, never descended into, whatever they point at from their new place); --gitignore selections (git's own verdicts; sources holding a directory of their own name) mirrored entry by entry; destinations whose parent is missing, trees whose files are renamed away or whose fresh destination directory is removed by another process during the run (exit 0 still means: everything there); operands ending in `..` (nothing outside the destination); overwrites with backups next to existing backups of any number (2^64-1 included): bystanders untouched; non-trivial = >=3 entries; distinct by case")
     run_walker_r0(ctx, out)
     run_copies(ctx, out)
     import destmatrix
@@ -338,6 +338,44 @@ def run(ctx, out):
     run_selected(ctx, out)
     run_unreachable_and_vanishing(ctx, out)
     run_dotdot_operands(ctx, out)
+    run_backup_bystanders(ctx, out)
+
+
+def run_backup_bystanders(ctx, out):
+    """With backups enabled the entry a source maps onto is renamed to a NEW name: every other entry of the destination —
+    among them backups of any number, up to the largest a u64 holds — is one that no source maps onto and stays as it is."""
+    rng = ctx.rng
+    d0 = ctx.work.fresh("c02bak")
+    k = 0
+    for driver in ("parfile", "parblock"):
+        for mode in ("numbered", "auto"):
+            for top in (18446744073709551615, 18446744073709551614, 7):
+                k += 1
+                d = os.path.join(d0, "b%d" % k)
+                os.makedirs(os.path.join(d, "t", "sub"))
+                os.makedirs(os.path.join(d, "s", "sub"))
+                for rel in ("f", "sub/g"):
+                    open(os.path.join(d, "s", rel), "wb").write(b"new " + rel.encode())
+                    open(os.path.join(d, "t", rel), "wb").write(b"current " + rel.encode())
+                    open(os.path.join(d, "t", rel + ".~%d~" % top), "wb").write(b"backup %d of " % top + rel.encode())
+                    open(os.path.join(d, "t", rel + ".~2~"), "wb").write(b"backup 2 of " + rel.encode())
+                open(os.path.join(d, "t", "unrelated"), "wb").write(b"unrelated")
+                before = xcp.snapshot(os.fsencode(d))
+                argv = [ctx.bins["xcp"], "-r", "-T", "--driver", driver, "-w", str(rng.choice([1, 2])), "--backup", mode, "s", "t"]
+                r = xcp.run_plain(argv, d)
+                after = xcp.snapshot(os.fsencode(d))
+                out.case(("backup-bystanders", driver, mode, top), True)
+                out.count("backup_bystanders")
+                if r.exit == 0:
+                    for p_, e in before.items():
+                        if p_.startswith(b"t/") and p_ not in (b"t/f", b"t/sub/g", b"t/sub") and e["kind"] == "file":
+                            a = after.get(p_)
+                            if a is None or a.get("sha") != e.get("sha"):
+                                out.violation("exit 0 but %r, an entry of the destination that no source maps onto, was %s (--backup %s)"
+                                              % (p_, "removed" if a is None else "replaced", mode),
+                                              dict(argv=argv[1:], exit=r.exit, stderr=r.stderr[-200:]))
+                                break
+                shutil.rmtree(d, ignore_errors=True)
 
 
 def run_dotdot_operands(ctx, out):
